@@ -88,6 +88,12 @@ def fault_atoms():
         [["on_disconnect_open"], ["close"], ["open"]],
         [["on_disconnect_open"], ["slow_conn", 1.0], ["close"], ["open"], ["status"]],
         [["open"]],                        # open_socket() while open
+        # the link is reset from the send side / by reset_connection() while the receive loop
+        # is held up in a subscriber, which returns when the next connection already exists
+        [["slow_msg", 3.0], ["status"], ["adv", 0.5], ["wfail", 1],
+         ["send", "zone_ctrl", "idem", "inline"]],
+        [["slow_msg", 3.0], ["status"], ["adv", 0.5], ["reset"]],
+        [["slow_msg", 1.0], ["status"], ["turns", 2], ["reset"], ["adv", 0.5], ["status"]],
         # a subscriber that fails when it is called (not when it is awaited)
         [["sync_raise", "msg"], ["status"]],
         [["sync_raise", "conn"], ["fin"]],
@@ -254,9 +260,10 @@ async def recovery_tail(gen, w, run, out):
     # the application's subscribers are quick again; one that is busy right now gets the time
     # it still needs (it is the application's time, not the client's)
     w.conn_delays.clear()
+    w.msg_delays.clear()
     now = loop.time()
-    busy = max([t + d["delay"] - now for _, t, k, d in log.events if k == "SUB.conn_slow"]
-               + [0.0])
+    busy = max([t + d["delay"] - now for _, t, k, d in log.events
+                if k in ("SUB.conn_slow", "SUB.msg_slow")] + [0.0])
     log.add("ORACLE.start")
     mark = log.mark()
     await asyncio.sleep(max(busy, 0.0) + 2.0 + maxlat + 1.0)
